@@ -4,6 +4,14 @@ The prompt is self-contained and contains nothing from /verif except the text of
 import json, os, subprocess, sys
 ROOT = os.path.dirname(os.path.dirname(os.path.abspath(__file__)))
 TESTS = {
+ 'C03': 'tests/tests_sim tests/test_gate.py',
+ 'C07': 'tests/tests_sim/test_sim_clifford.py tests/tests_group/test_group_spf2.py tests/test_gate.py',
+ 'C08': 'tests/test_gate.py tests/tests_sim/test_sim_clifford.py tests/tests_group/test_group_spf2.py',
+ 'C09': 'tests/tests_group/test_group_spf2.py tests/tests_sim/test_sim_clifford.py tests/test_gate.py',
+ 'C11': 'tests/tests_sim',
+ 'C12': 'tests/test_channel.py tests/test_utils.py tests/test_gellmann.py tests/test_random.py',
+ 'C16': 'tests/test_gellmann.py tests/test_channel.py',
+ 'C17': 'tests/test_dicke.py tests/test_utils.py tests/test_entangle/test_entangle_pureb.py',
  'C01': 'tests/test_manifold.py tests/test_manifold_ABk.py tests/test_optimize.py',
  'C02': 'tests/test_manifold.py tests/test_manifold_ABk.py tests/test_optimize.py',
  'C04': 'tests/tests_sim tests/test_torch_op.py tests/test_qec.py tests/test_optimal_control.py',
@@ -18,6 +26,14 @@ TESTS = {
  'C20': 'tests/tests_matrix_space',
 }
 HINT = {
+ 'C03': 'only a particular ordering of target qubits, only controlled gates with several controls or controls above the targets, only density-matrix simulation, only circuits that reuse a state object, only a parametrised or custom gate, only after shift_qubit_index_',
+ 'C07': 'only a particular interleaving of appends and queries, only one two-qubit gate orientation, only a phase that goes wrong for certain Pauli/tableau combinations, only n>=3',
+ 'C08': 'only large indices, only a batch of a particular shape, only anti-Hermitian operators, only when both operands carry an i phase, only one conversion direction',
+ 'C09': 'only tuples whose entries hit a boundary value, only n>=3, only a rare branch of find_transvection, two cooperating sites so that the round trip still works but the images are no longer symplectic or distinct',
+ 'C11': 'only non-contiguous measured subsets, only when the unmeasured qubits form several groups, only a zero-probability outcome, only the bit-string order, only a repeated measurement',
+ 'C12': 'only dim_in != dim_out, only rank-deficient Choi operators, only complex inputs, only one argument order of fidelity / relative entropy, only one conversion direction',
+ 'C16': 'only tensor_n>=2, only the torch backend, only batches, only d>=4, only non-Hermitian input, only with_rho0 / norm options',
+ 'C17': 'only three or more subsystems with a non-trivial keep order, only unequal dimensions, only k=1 or the largest k, only dimB>2',
  'C01': 'only one backend (numpy vs torch), only one dtype (float32/complex64), only a particular batch shape, only rank<dim or rank==dim, only one method option, only large |theta|, a module wrapper that passes a slightly different argument than the functional map',
  'C02': 'a parametrisation that silently loses one degree of freedom (two parameters entering only through their sum, a parameter written to a slot that is later overwritten or discarded, a wrong block), only for one field (real/complex), one method, rank<dim, or only in the nn.Module parameter count',
  'C04': 'a gradient that is wrong only for a controlled gate, a non-ascending target tuple, a parameter shared by two gates, a placeholder parameter, a degenerate eigenvalue, only the real or only the imaginary part, only when tag_op_grad is off',
